@@ -799,7 +799,8 @@ def _desugar_factors_with_weights(design: List[Factor],
                 # Uses `replacements`:
                 f.desugar_for_weights(replacements)
         # Returned `replacements` is also used for constraint desugaring
-        return (list(chain.from_iterable([replacements.get(f, [f]) for f in design])),
+        # A derived factor's replacement is recorded as `[f, f]`; list it in the design only once.
+        return (list(chain.from_iterable([list(dict.fromkeys(replacements.get(f, [f]))) for f in design])),
                 [[replacements.get(f, [f, f])[1] for f in c] for c in crossings],
                 replacements)
 
